@@ -565,6 +565,76 @@ impl<'t> TreeConstruct<'t> for RecTree {
     }
 }
 
+/// Tree builder and user actions that keep nothing: for very deep inputs, where the harness's own
+/// recursive `Node` must not be the thing that overflows the stack.
+#[derive(Default)]
+pub struct NullTree {
+    pub opened: usize,
+    pub tokens: usize,
+}
+impl<'t> TreeConstruct<'t> for NullTree {
+    type Error = ParolError;
+    type Tree = ();
+    fn open_non_terminal(&mut self, _name: &'static str, _h: Option<usize>) -> Result<(), ParolError> {
+        self.opened += 1;
+        Ok(())
+    }
+    fn close_non_terminal(&mut self) -> Result<(), ParolError> {
+        Ok(())
+    }
+    fn add_token(&mut self, _token: &Token<'t>) -> Result<(), ParolError> {
+        self.tokens += 1;
+        Ok(())
+    }
+    fn build(self) -> Result<(), ParolError> {
+        Ok(())
+    }
+}
+#[derive(Default)]
+pub struct NullActions {
+    pub calls: usize,
+}
+impl<'t> UserActionsTrait<'t> for NullActions {
+    fn call_semantic_action_for_production_number(&mut self, _prod_num: usize, _children: &[ParseTreeType<'t>]) -> parol_runtime::Result<()> {
+        self.calls += 1;
+        Ok(())
+    }
+    fn on_comment(&mut self, _token: Token<'t>) {}
+}
+
+impl Bound {
+    /// run the real parser, keeping only the verdict (ok, error kind, action calls)
+    pub fn parse_flat(&self, input: &str, opts: &RunOpts) -> (bool, Option<String>, usize) {
+        let mut tb = NullTree::default();
+        let mut act = NullActions::default();
+        let ts = self.token_stream(input, opts.k_override.unwrap_or(self.stream_k));
+        let trim = opts.trim || self.src.trim;
+        let r = match &self.tables {
+            Tables::Ll { las, prods, .. } => {
+                let mut p = LLKParser::new(self.start, las, prods, self.tnames, self.ntnames);
+                if trim {
+                    p.trim_parse_tree();
+                }
+                if opts.recovery_disabled || self.src.recovery_disabled {
+                    p.disable_recovery();
+                }
+                p.parse_into(&mut tb, ts, &mut act)
+            }
+            Tables::Lr { table, prods } => {
+                let mut p = LRParser::new(self.start, table, prods, self.tnames, self.ntnames);
+                if trim {
+                    p.trim_parse_tree();
+                }
+                p.parse_into(&mut tb, ts, &mut act)
+            }
+        };
+        match r {
+            Ok(()) => (true, None, act.calls),
+            Err(e) => (false, Some(classify_err(&e).0), act.calls),
+        }
+    }
+}
+
 #[derive(Clone, Debug, PartialEq, Eq)]
 pub enum Child {
     T(Tok),
